@@ -248,6 +248,14 @@ def build(unit, strict=True, mutate=None, pid=None, degrade=(), extras=()):
             b.notes.append("missing item `%s%s` not found in the unit's source files" % ((ty + "::") if ty else "", name))
     chunks.append("\n} // verus!\nfn main() {}\n")
     b.text = "".join(chunks)
+    # identical `use` lines coming from several included specs: keep the first (line numbers preserved)
+    seen = set(); lines = b.text.split("\n")
+    for k, l in enumerate(lines):
+        st = l.strip()
+        if st.startswith("use ") and st.endswith(";"):
+            if st in seen: lines[k] = ""
+            seen.add(st)
+    b.text = "\n".join(lines)
     return b
 
 def imported_spec(other, b):
